@@ -541,6 +541,10 @@ def corpus():
     # meet it fail, and must leave the grammar as it was
     out.append(gram.Spec([C("A0", True, None), C("Leaf", False, 0, [("k", ("ann", "int", ("intRange", 0, 3)))]), C("Plugin", True, None),
                           C("Ext", False, 0, [("p", ("cls", 2))]), C("Neg", False, 0, [("e", ("cls", 0))])], 0, [1, 3, 4, 2]))
+    # a start symbol in the MIDDLE of a hierarchy (its parent and the parent's other productions are registered through the parent link and
+    # cannot be reached from the start): read-only queries such as usable_grammar() leave those rules where they are
+    out.append(gram.Spec([C("Root", True, None), C("Mid", True, 0), C("Other", False, 0, [("k", ("ann", "int", ("intRange", 0, 3)))]),
+                          C("Leaf", False, 1, [("k", ("ann", "int", ("intRange", 0, 3)))]), C("Pair", False, 1, [("l", ("cls", 1)), ("r", ("cls", 1))])], 1, [2, 3, 4]))
     # a Union whose alternative WRAPS a recursive symbol (a list of it, a bounded list, a tuple): the wrapper is not a symbol of
     # the grammar, and asking whether such an alternative is recursive must not make it one
     for wrapped in (("list", ("cls", 0)), ("ann", ("list", ("cls", 0)), ("listSize", 1, 2)), ("tuple", ("cls", 0), "int")):
